@@ -38,6 +38,7 @@ const basePrelude = `
 (declare-datatypes ((K4 0)) (((k4 (k4.a Int) (k4.b Int) (k4.c Int) (k4.d Int)))))
 (declare-fun bcode ((Array Int Int) Int Int) Int)
 (declare-fun blen (Int) Int)
+(declare-fun natval ((Array Int Int) Int Int) Int)
 (declare-const bcode.empty Int)
 (declare-fun strlen (Int) Int)
 (declare-fun strbyte (Int Int) Int)
